@@ -1703,3 +1703,185 @@ pub mod aux {
 		Ok(())
 	}
 }
+
+// -------------------------------------------------------------------------------------------------
+// (d) OutputSweeper: a sweeper following one node of a world, compared at every step with a copy that was
+// re-read from the sweeper's persisted bytes one step earlier and then given the same inputs
+// -------------------------------------------------------------------------------------------------
+
+pub mod sweep {
+	use super::*;
+	use bitcoin::{ScriptBuf, Transaction};
+	use lightning::chain::chaininterface::{BroadcasterInterface, TransactionType};
+	use lightning::chain::Listen;
+	use lightning::sign::{ChangeDestinationSourceSync, SpendableOutputDescriptor};
+	use lightning::util::dyn_signer::DynKeysInterface;
+	use lightning::util::persist::{KVStoreSync, OUTPUT_SWEEPER_PERSISTENCE_KEY};
+	use lightning::util::sweep::{OutputSpendStatus, OutputSweeperSync, TrackedSpendableOutput};
+	use lightning::util::test_utils::{TestChainSource, TestFeeEstimator};
+	use std::sync::Mutex;
+
+	#[derive(Default)]
+	pub struct MemStore {
+		pub data: Mutex<BTreeMap<String, Vec<u8>>>,
+		pub writes: Mutex<u64>,
+	}
+	impl KVStoreSync for MemStore {
+		fn read(&self, p: &str, s: &str, k: &str) -> Result<Vec<u8>, lightning::io::Error> {
+			self.data.lock().unwrap().get(&format!("{}/{}/{}", p, s, k)).cloned().ok_or_else(|| lightning::io::Error::new(lightning::io::ErrorKind::NotFound, "not found"))
+		}
+		fn write(&self, p: &str, s: &str, k: &str, buf: Vec<u8>) -> Result<(), lightning::io::Error> {
+			*self.writes.lock().unwrap() += 1;
+			self.data.lock().unwrap().insert(format!("{}/{}/{}", p, s, k), buf);
+			Ok(())
+		}
+		fn remove(&self, p: &str, s: &str, k: &str, _lazy: bool) -> Result<(), lightning::io::Error> {
+			self.data.lock().unwrap().remove(&format!("{}/{}/{}", p, s, k));
+			Ok(())
+		}
+		fn list(&self, _p: &str, _s: &str) -> Result<Vec<String>, lightning::io::Error> {
+			Ok(vec![])
+		}
+	}
+	impl MemStore {
+		pub fn sweeper_bytes(&self) -> Option<Vec<u8>> {
+			self.data.lock().unwrap().get(&format!("//{}", OUTPUT_SWEEPER_PERSISTENCE_KEY)).cloned()
+		}
+	}
+
+	#[derive(Default)]
+	pub struct VecBroadcaster {
+		pub txs: Mutex<Vec<Transaction>>,
+	}
+	impl BroadcasterInterface for VecBroadcaster {
+		fn broadcast_transactions(&self, txs: &[(&Transaction, TransactionType)]) {
+			for (t, _) in txs {
+				self.txs.lock().unwrap().push((*t).clone());
+			}
+		}
+	}
+
+	/// a fixed change script: the sweeper's output must not depend on anything but its state and inputs
+	pub struct FixedChange(pub ScriptBuf);
+	impl ChangeDestinationSourceSync for FixedChange {
+		fn get_change_destination_script(&self) -> Result<ScriptBuf, ()> {
+			Ok(self.0.clone())
+		}
+	}
+
+	pub type Sweeper<'a> = OutputSweeperSync<&'a VecBroadcaster, &'a FixedChange, &'a TestFeeEstimator, &'a TestChainSource, &'a MemStore, &'a TestLogger, &'a DynKeysInterface>;
+
+	/// Everything a sweeper instance needs, owned in one place.
+	pub struct Rig {
+		pub store: MemStore,
+		pub bc: VecBroadcaster,
+		pub change: FixedChange,
+	}
+	impl Rig {
+		pub fn new(change: ScriptBuf) -> Rig {
+			Rig { store: MemStore::default(), bc: VecBroadcaster::default(), change: FixedChange(change) }
+		}
+	}
+
+	/// Rendering of the tracked outputs that does not depend on the order in which a sweep transaction lists
+	/// its inputs (the sweeper collects them through a hash set) nor on its signatures.
+	pub fn render_tracked(v: &[TrackedSpendableOutput]) -> Vec<String> {
+		let tx_key = |t: &Transaction| {
+			let mut ins: Vec<String> = t.input.iter().map(|i| i.previous_output.to_string()).collect();
+			ins.sort();
+			format!("tx(locktime {} inputs [{}] outputs {:?})", t.lock_time, ins.join(","), t.output)
+		};
+		let mut out: Vec<String> = v
+			.iter()
+			.map(|o| {
+				let st = match &o.status {
+					OutputSpendStatus::PendingInitialBroadcast { delayed_until_height } => format!("PendingInitialBroadcast({:?})", delayed_until_height),
+					OutputSpendStatus::PendingFirstConfirmation { first_broadcast_hash, latest_broadcast_height, latest_spending_tx } => format!("PendingFirstConfirmation({}, {}, {})", first_broadcast_hash, latest_broadcast_height, tx_key(latest_spending_tx)),
+					OutputSpendStatus::PendingThresholdConfirmations { first_broadcast_hash, latest_broadcast_height, latest_spending_tx, confirmation_height, confirmation_hash } => {
+						format!("PendingThresholdConfirmations({}, {}, {}, {}, {})", first_broadcast_hash, latest_broadcast_height, tx_key(latest_spending_tx), confirmation_height, confirmation_hash)
+					},
+				};
+				format!("{:?} chan {:?} peer {:?} {}", o.descriptor, o.channel_id, o.counterparty_node_id, st)
+			})
+			.collect();
+		out.sort();
+		out
+	}
+
+	#[derive(Default, Debug, Clone)]
+	pub struct SweepStats {
+		pub steps_compared: u64,
+		pub reloads: u64,
+		pub tracked_max: usize,
+		pub pending_first_conf: bool,
+		pub pending_threshold: bool,
+		pub delayed: bool,
+		pub broadcasts: u64,
+		pub reorgs: u64,
+		pub byte_equal_stores: u64,
+		pub store_compared: u64,
+	}
+
+	/// Feed the blocks of `sim.chain` that the sweeper has not seen (disconnecting first if the chain was
+	/// reorganised below its tip).
+	pub fn sync_chain(sw: &Sweeper, sim: &Sim, fed: &mut Vec<bitcoin::BlockHash>, st: Option<&mut SweepStats>) {
+		// common prefix
+		let mut common = 0;
+		while common < fed.len() && common < sim.chain.blocks.len() && fed[common] == sim.chain.blocks[common].block_hash() {
+			common += 1;
+		}
+		if common < fed.len() {
+			let mut loc = BlockLocator::new(fed[common - 1], (common - 1) as u32);
+			for (k, slot) in loc.previous_blocks.iter_mut().enumerate() {
+				if common >= 2 + k {
+					*slot = Some(fed[common - 2 - k]);
+				}
+			}
+			sw.blocks_disconnected(loc);
+			fed.truncate(common);
+			if let Some(st) = st {
+				st.reorgs += 1;
+			}
+		}
+		for h in fed.len()..sim.chain.blocks.len() {
+			let b = &sim.chain.blocks[h];
+			sw.block_connected(b, h as u32);
+			fed.push(b.block_hash());
+		}
+	}
+
+	pub fn new_sweeper<'a>(rig: &'a Rig, sim: &'a Sim, node: usize) -> Sweeper<'a> {
+		let nd = &sim.w.nodes[node];
+		let tip = sim.chain.blocks.len() - 1;
+		let mut loc = BlockLocator::new(sim.chain.blocks[tip].block_hash(), tip as u32);
+		for (k, slot) in loc.previous_blocks.iter_mut().enumerate() {
+			if tip >= 1 + k {
+				*slot = Some(sim.chain.blocks[tip - 1 - k].block_hash());
+			}
+		}
+		OutputSweeperSync::new(loc, &rig.bc, nd.fee_estimator, None, &nd.keys_manager.backing, &rig.change, &rig.store, nd.logger)
+	}
+
+	pub fn reload_sweeper<'a>(rig: &'a Rig, sim: &'a Sim, node: usize, bytes: &[u8]) -> Result<Sweeper<'a>, DecodeError> {
+		let nd = &sim.w.nodes[node];
+		let mut r = bytes;
+		let (_, sw) = <(BlockLocator, Sweeper<'a>)>::read(&mut r, (&rig.bc, nd.fee_estimator, None, &nd.keys_manager.backing, &rig.change, &rig.store, nd.logger))?;
+		if !r.is_empty() {
+			return Err(DecodeError::InvalidValue);
+		}
+		Ok(sw)
+	}
+
+	/// The spendable outputs node `node` was told about in `sim.log[from..]`.
+	pub fn new_descriptors(sim: &Sim, node: usize, from: usize) -> Vec<(Vec<SpendableOutputDescriptor>, Option<ChannelId>)> {
+		let mut out = vec![];
+		for (_, e) in sim.log[from..].iter() {
+			if let SEvent::Ldk { node: n, ev: lightning::events::Event::SpendableOutputs { outputs, channel_id, .. } } = e {
+				if *n == node {
+					out.push((outputs.clone(), *channel_id));
+				}
+			}
+		}
+		out
+	}
+}
